@@ -552,7 +552,14 @@ class Interp:
                 raise EngineError("// or % by a negative divisor")
             # z3 div/mod are euclidean; for positive divisors they coincide with Python's floor semantics
             return SInt(z3.simplify(za / zb if isinstance(opnode, ast.FloorDiv) else za % zb))
-        raise EngineError("// or % on symbolic reals")
+        # real floor division / modulo by a concrete non-zero number: a = b*k + r, k integer, r in [0, b) (sign of b)
+        if isinstance(b, (int, float)) and not isinstance(b, bool) and b != 0 and isinstance(a, (SReal, SInt)):
+            k = self.ctx.fresh_fn("floordiv", "int", a, b)
+            za, zb = real_z(a), real_z(b)
+            r = za - zb * z3.ToReal(k.z)
+            self.ctx.axiom(z3.And(r >= 0, r < zb) if b > 0 else z3.And(r <= 0, r > zb), "floor_mod.def")
+            return SReal(z3.ToReal(k.z)) if isinstance(opnode, ast.FloorDiv) else SReal(z3.simplify(r))
+        raise EngineError("// or % with a symbolic divisor")
 
     def unary(self, opnode, v):
         if isinstance(opnode, ast.Not):
